@@ -4,7 +4,7 @@ Runs in a scratch copy of /repo's working tree; a failing case is a real failing
 import os, re, shutil, subprocess, tempfile, time, json, sys
 VERIF = os.path.dirname(os.path.dirname(os.path.abspath(__file__)))
 REPO = os.environ.get('VP_REPO', '/repo')
-HARNESS = {'src/parsing/buffers.rs': 'native/buffers_checks.rs', 'src/parsing/chunked_reader.rs': 'native/chunked_checks.rs', 'src/parsing/body_reader.rs': 'native/body_checks.rs', 'src/request/proxy.rs': 'native/proxy_checks.rs', 'src/parsing/compressed_reader.rs': 'native/compressed_checks.rs', 'src/request/mod.rs': 'native/request_checks.rs'}
+HARNESS = {'src/parsing/buffers.rs': 'native/buffers_checks.rs', 'src/parsing/chunked_reader.rs': 'native/chunked_checks.rs', 'src/parsing/body_reader.rs': 'native/body_checks.rs', 'src/request/proxy.rs': 'native/proxy_checks.rs', 'src/parsing/compressed_reader.rs': 'native/compressed_checks.rs', 'src/request/mod.rs': 'native/request_checks.rs', 'src/multipart.rs': 'native/multipart_checks.rs', 'src/parsing/response_reader.rs': 'native/text_checks.rs'}
 
 
 def run(prop, tier, cfg):
@@ -20,7 +20,7 @@ def run(prop, tier, cfg):
             open(os.path.join(scratch, rel), 'a').write('\n#[cfg(test)]\n#[path = "%s"]\nmod verif_native;\n' % hp)
         env = dict(os.environ, CARGO_NET_OFFLINE='true', CARGO_TARGET_DIR=os.path.join(VERIF, 'build', 'native_target'))
         names = [t['name'] for t in cfg['tests'] if not (t.get('tier', 'quick') == 'thorough' and tier != 'thorough')]
-        cmd = ['cargo', 'test', '--offline', '--release', '--lib', 'vp_native_', '--', '--nocapture', '--test-threads', '8']
+        cmd = ['cargo', 'test', '--offline', '--release', '--features', 'charsets,multipart-form,json,form', '--lib', 'vp_native_', '--', '--nocapture', '--test-threads', '8']
         try:
             p = subprocess.run(cmd, cwd=scratch, env=env, capture_output=True, text=True, timeout=cfg.get('timeout', 1500))
         except subprocess.TimeoutExpired:
